@@ -476,3 +476,26 @@ def normalise_sqrt(r: Rat) -> Rat:
         return total
 
     return fix(r.n) / fix(r.d)
+
+
+def poly_derivative(p: Poly, atom) -> Poly:
+    out = Poly()
+    for m, c in p.t.items():
+        md = dict(m)
+        e = md.get(atom, 0)
+        if e == 0:
+            continue
+        if e == 1:
+            del md[atom]
+        else:
+            md[atom] = e - 1
+        k = tuple(sorted(md.items(), key=lambda ae: _atom_key(ae[0])))
+        out.t[k] = out.t.get(k, 0) + c * e
+    out.t = {k: v for k, v in out.t.items() if v != 0}
+    return out
+
+
+def derivative(r: Rat, atom) -> Rat:
+    """d r / d atom, treating every other atom (including opaque calls) as constant."""
+    dn, dd = poly_derivative(r.n, atom), poly_derivative(r.d, atom)
+    return Rat(dn * r.d - r.n * dd, r.d * r.d)
